@@ -14,7 +14,7 @@
   R-SAVEDERR   Any<FirstFail>: the saved error is written only by the winner of the CAS election and read only in
                the destructor
 """
-from vlib import pathwalk
+from vlib import facts, pathwalk
 
 SET = 'yaclib::Promise::Set'
 RMW = ('exchange', 'compare_exchange_strong', 'compare_exchange_weak', 'fetch_sub', 'fetch_add', 'fetch_or',
@@ -270,7 +270,7 @@ def check_lastfail(ctx, fb, rule):
         for f in fs:
             if 'ctor' in f.flags:
                 for it in f.raw.get('inits', []):
-                    if f.S[it['what']].endswith('::_state'):
+                    if facts.canon_field(f.S[it['what']]).endswith('::_state'):
                         if f.sn(it['e'])['k'] == 'DeclRefExpr' or any(
                                 f.sn(c)['k'] == 'DeclRefExpr' for c in f.sn(it['e']).get('ch', [])[:1]):
                             mul = 1  # initialised with the plain count
